@@ -140,19 +140,19 @@ fn is_sep_or_close(t: Option<&Tok>) -> bool {
     }
 }
 fn bin_of(t: Option<&Tok>) -> Option<&'static str> {
-    match t {
+    match t.map(|t| t.inner()) {
         Some(Tok::Op(o)) => static_bin(o),
         _ => None,
     }
 }
 fn assign_of(t: Option<&Tok>) -> Option<&'static str> {
-    match t {
+    match t.map(|t| t.inner()) {
         Some(Tok::Op(o)) => static_assign(o),
         _ => None,
     }
 }
 fn const_of(t: &Tok) -> Option<RV> {
-    match t {
+    match t.inner() {
         Tok::Int(i) => Some(RV::Int(*i)),
         Tok::Float(f) => Some(RV::Float(*f)),
         Tok::Bool(b) => Some(RV::Bool(*b)),
@@ -311,7 +311,7 @@ impl<'a> P<'a> {
         if let Some(c) = const_of(t) {
             return Ast::Const(c);
         }
-        if let Tok::Ident(name) = t {
+        if let Tok::Ident(name) = t.inner() {
             if starts_operand(self.peek()) {
                 let arg = self.callarg();
                 return Ast::Call(name.clone(), Box::new(arg));
@@ -339,7 +339,7 @@ impl<'a> P<'a> {
         if let Some(c) = const_of(t) {
             return Ast::Const(c);
         }
-        if let Tok::Ident(name) = t {
+        if let Tok::Ident(name) = t.inner() {
             if starts_operand(self.peek()) {
                 let arg = self.callarg();
                 return Ast::Call(name.clone(), Box::new(arg));
